@@ -242,7 +242,7 @@ def _c14_split(w, deck, a):
 
 
 @O.op("c14.cell_text", "c14", weight=3.0)
-@O.gen(lambda r: dict(g_tbl(r), text=r.choice(["", "x", xml_text(r, 10), "a\nb", "l1\n\nl3", "p\vq"])))
+@O.gen(lambda r: dict(g_tbl(r), text=r.choice(["", "x", xml_text(r, 10), "a\nb", "l1\n\nl3", "p\vq", "\nfirst paragraph empty", "\n\nz", "last empty\n", "\n"])))
 def _c14_text(w, deck, a):
     sl, sh, tbl, m = _pick_table(w, deck, a)
     _cell(deck, sh, tbl, a["r"] % m["rows"], a["c"] % m["cols"], a.get("held")).text = a["text"]
@@ -365,11 +365,9 @@ def gen_trace(seed: int, tier: str) -> dict:
                 # bias towards small ranges so that several disjoint merges can coexist
                 e["r2"] = e["r"] + r2.choice([0, 0, 1, 1, 2])
                 e["c2"] = e["c"] + r2.choice([0, 1, 1, 2])
-    rx = S("rewrite")
-    for e in events:
-        if e["op"] in ("restart", "reopen") and rx.random() < 0.3:
-            # between the sessions the file is rewritten by a producer that omits the optional a:tblPr
-            e["xform"] = [{"kind": "rewrite_slides", "how": "strip_tblPr"}]
+    # between the sessions the file is rewritten by a producer that omits the optional a:tblPr / a:txBody of empty cells, or spells
+    # booleans (hMerge, vMerge, firstRow ...) as words
+    common.rewritten_between_sessions(seed, events, rate=0.35)
     return {"property": ID, "seed": seed, "tier": tier, "config": {"max_slides": 4, "max_shapes": 12},
             "start": [{"deck": "default"}], "events": pre + events}
 
@@ -445,6 +443,25 @@ def pinned_traces(tier):
            {"op": "c14.merge", "table": 0, "r": 2, "c": 2, "r2": 1, "c2": 2}, {"op": "c14.split", "table": 0, "r": 1, "c": 0}, {"op": "c14.split", "table": 0, "r": 2, "c": 1},
            {"op": "checkpoint", "sink": "seekable"}, {"op": "restart"}]
     out.append({"property": ID, "seed": "table-without-tblPr", "tier": "pinned", "config": {"pinned": True}, "start": [{"deck": "default"}], "events": evs})
+    # cells whose FIRST paragraph is empty (text starting with a line feed), as origin and as non-origin of a merge
+    evs = [{"op": "add_slide", "layout": 6}, {"op": "c14.add_table", "slide": 0, "rows": 3, "cols": 3, "w": 900000, "h": 600000, "x": 0, "y": 0}]
+    for k, (o_, n_) in enumerate((("\norigin", "plain"), ("plain", "\nhidden"), ("\n", "\nx\n"), ("", "\n\ndeep"))):
+        evs += [{"op": "c14.cell_text", "table": 0, "r": 0, "c": 0, "text": o_}, {"op": "c14.cell_text", "table": 0, "r": 1, "c": 1, "text": n_},
+                {"op": "c14.cell_text", "table": 0, "r": 0, "c": 1, "text": "mid %d" % k},
+                {"op": "c14.merge", "table": 0, "r": 0, "c": 0, "r2": 1, "c2": 1}, {"op": "checkpoint", "sink": "seekable"}, {"op": "c14.split", "table": 0, "r": 0, "c": 0}]
+    evs += [{"op": "restart"}]
+    out.append({"property": ID, "seed": "first-paragraph-empty", "tier": "pinned", "config": {"pinned": True}, "start": [{"deck": "default"}], "events": evs})
+    # merged regions stored with hMerge / vMerge spelled "true": overlapping merges that touch the region only through cells that carry no
+    # span of their own (right column, bottom row, interior) are refused all the same
+    for (r0, c0, r1, c1) in ((0, 0, 2, 2), (0, 0, 0, 3), (0, 0, 3, 0)):
+        evs = [{"op": "add_slide", "layout": 6}, {"op": "c14.add_table", "slide": 0, "rows": 4, "cols": 4, "w": 900000, "h": 600000, "x": 0, "y": 0},
+               {"op": "c14.cell_text", "table": 0, "r": 3, "c": 3, "text": "z"},
+               {"op": "c14.merge", "table": 0, "r": r0, "c": c0, "r2": r1, "c2": c1}, {"op": "checkpoint", "sink": "seekable"},
+               {"op": "restart", "xform": [{"kind": "rewrite_slides", "how": "bool_words"}]}]
+        for (a_, b_, c_, d_) in ((r1, c1, 3, 3), (r1, c1, r1, 3), (r1, c1, 3, c1), (max(r1 - 1, 0), c1, 3, 3), (r1, max(c1 - 1, 0), 3, 3), (3, 3, r1, c1)):
+            evs.append({"op": "c14.merge", "table": 0, "r": a_, "c": b_, "r2": c_, "c2": d_})
+        evs += [{"op": "c14.split", "table": 0, "r": r0, "c": c0}, {"op": "checkpoint", "sink": "seekable"}, {"op": "restart"}]
+        out.append({"property": ID, "seed": "merge-flags-spelled-as-words-%d%d%d%d" % (r0, c0, r1, c1), "tier": "pinned", "config": {"pinned": True}, "start": [{"deck": "default"}], "events": evs})
     evs = [{"op": "add_slide", "layout": 6}, {"op": "c14.add_table", "slide": 0, "rows": 4, "cols": 4, "w": 900000, "h": 600000, "x": 0, "y": 0},
            {"op": "c14.merge", "table": 0, "r": 0, "c": 0, "r2": 1, "c2": 1, "held": True}, {"op": "c14.split", "table": 0, "r": 0, "c": 0, "held": True},
            {"op": "c14.merge", "table": 0, "r": 0, "c": 0, "r2": 0, "c2": 3, "held": True}, {"op": "c14.merge", "table": 0, "r": 1, "c": 0, "r2": 1, "c2": 1},
